@@ -54,7 +54,7 @@ def case_strategy(draw):
         zeros = [[0, draw(st.integers(1, 20))], [n - draw(st.integers(1, 20)), 20]]
     elif zp == 'all':
         zeros = [[0, n]]
-    og = draw(st.sampled_from(['wider', 'shift', 'same', 'narrower', 'coarser', 'wider', 'disjoint', 'finer']))
+    og = draw(st.sampled_from(['wider', 'shift', 'same', 'narrower', 'coarser', 'wider', 'disjoint', 'finer', 'offset']))
     return dict(nexp=nexp, n=n, c0=c0, c1=c1, fam=fam, fp=[draw(uf) for _ in range(4)], zeros=zeros, zpattern=zp,
                 offsets=[0.0] + [0.5 * (1 + draw(uf)) * 0.98 + 0.01 for _ in range(nexp - 1)],
                 og=og, frac=draw(st.sampled_from([0.5, 0.25, 0.01, 0.99, 0.73])), left=draw(st.integers(1, 40)), right=draw(st.integers(1, 40)),
@@ -107,6 +107,10 @@ def build(case):
         nl = c0 + c1 * (np.arange(case['left'], n - case['right'], dtype='f8') + f)
     elif og == 'coarser':
         nl = c0 + 2 * c1 * np.arange(n // 2, dtype='f8') + c1 * f
+    elif og == 'offset':
+        # the same pixel scale moved bodily by 15-60 pixels: the grid starts outside the data and ends well inside it (or the reverse)
+        sh = 15 + case['left'] + case['right']
+        nl = c0 + c1 * (np.arange(n, dtype='f8') + (-sh if case['left'] % 2 else sh) + (f if case['right'] % 2 else 0.0))
     elif og == 'finer':
         # two to three output pixels per input pixel over the middle of the data and a little beyond one end
         m = 2 + (case['left'] % 2)
@@ -213,6 +217,17 @@ def body(case):
             kind = 'constant-spectrum-not-constant' if case['fam'] == 'const' else ('same-grid-not-identity' if case['og'] == 'same' else 'flux-not-reproduced')
             worst = int(np.nonzero(nz)[0][(dev[nz] / tolv[nz]).argmax()])
             check(bool(np.all(dev[nz] <= tolv[nz] * amp)), kind, lambda: dict(maxdev=float(dev[worst]), tol=float(tolv[worst]), og=case['og'], pixel=worst))
+            if case['nexp'] == 1 and case['fam'] != 'const':
+                # "where the input is good and smooth the output reproduces it": far (> 12 input pixels) from every zero-weight pixel and
+                # from both ends of the data the flux is the input's, whatever inverse variance the pixel was given
+                l1 = np.asarray(ll, dtype='f8')
+                badl = np.concatenate([l1[np.asarray(iv) <= 0] if with_ivar else l1[:0], l1[[0, -1]]])
+                deep = np.min(np.abs(nl[:, None] - badl[None, :]), axis=1) > 12 * abs(l1[1] - l1[0])
+                deep &= (nl > l1.min()) & (nl < l1.max())
+                if deep.any():
+                    w2 = int(np.nonzero(deep)[0][(dev[deep] / tolv[deep]).argmax()])
+                    check(bool(np.all(dev[deep] <= tolv[deep])), 'flux-not-reproduced-deep-inside-good-data',
+                          lambda: dict(maxdev=float(dev[w2]), tol=float(tolv[w2]), pixel=w2, ivar_there=float(ni[w2]), og=case['og'], npix=len(nl)))
     c = case['scale']
     if not with_ivar:
         # the scaling relation is about (c flux, ivar / c^2); without an inverse variance iterfit derives its weights from the
@@ -270,7 +285,7 @@ def classify(case):
            'ivar' if case['with_ivar'] else 'no-ivar']
     if case['zpattern'] in ('runs', 'isolated'):
         out.append('interior-zero-run')
-    if case['og'] in ('wider', 'coarser', 'shift'):
+    if case['og'] in ('wider', 'coarser', 'shift', 'offset'):
         out.append('grid-beyond-data')
     return out
 
